@@ -47,7 +47,7 @@ def run(ctx, rep):
     for r in v['arms'].get('Negate', {}).get('paths', []):
         for val in r['path'].env.values():
             for st in subtrees(val):
-                if st[0] == 'unop' and st[1] == 'Neg' and st[3] in ('isize', 'i64'):
+                if st and st[0] == 'unop' and len(st) > 3 and st[1] == 'Neg' and st[3] in ('isize', 'i64'):
                     rawneg = True
     rep.ob(not und and not rawneg, 'R06.1', v['fn'].path, 'OpCode::Negate integer path', 'unary minus on integers must be checked (raw Neg: %s, undischarged: %d)' % (rawneg, len(und)), 'src/vm.rs')
 
